@@ -534,7 +534,11 @@ class yanny(OrderedDict):
                 for e in self._symbols['enum']:
                     m = re.search(r'typedef\s+enum\s*\{([^}]+)\}\s*(\w+)\s*;',
                                   e).groups()
-                    self._enum_cache[m[1]] = re.split(r',\s*', m[0].strip())
+                    #
+                    # Comments inside the block are not part of the labels.
+                    #
+                    body = re.sub(r'#[^\n]*', '', m[0])
+                    self._enum_cache[m[1]] = re.split(r',\s*', body.strip())
             else:
                 return False
         return self.basetype(structure, variable) in self._enum_cache
